@@ -25,7 +25,8 @@ EXPLANATION = (
     ' Third round: elements taken off token work lists (tokens.pop(0), next(tokens)) are tokens for the placeholder-safe-access rule.'
     ' Fourth round: one-shot iterators bound before a loop and used inside it (R19.5, with an embedded example); the keys of the Prolog tables are read through comprehension entries; the gather rule of C11.'
     ' Fifth round: R19.6 reads of unassigned locals (path-confirmed), the label rule of retrieve_tree and the conll head rule.'
-    ' Sixth and seventh round: R19.6 also requires that printers leave the results alone and format only templates; every tree of an n-best list is built from token 0 on (R19.3).')
+    ' Sixth and seventh round: R19.6 also requires that printers leave the results alone and format only templates; every tree of an n-best list is built from token 0 on (R19.3).'
+    ' Eighth round: R19.4 -- where a printer reads .cat.left / .right under nothing but a label test, every rule that emits the label returns a functor.')
 TRUSTED = ['CPython ast', 'sa/pysym.py path walker', 'label extraction shared with C03/C04']
 
 PROLOG = 'depccg/printer/prolog.py'
